@@ -34,7 +34,21 @@ RULE = ("histories over several live DB objects: DB(), read() of a tag file rend
         "regex through facet_collection, read_tag_database/read_tag_database_reversed/reverse.  "
         "non-trivial = history with >= 1 insert or derivation after the first read, or a leaf case")
 TRUSTED = ["model coq/Debtags/Model.v is a hand transcription of debtags.py (heap layer: set and dict objects "
-           "with references; leaves for the parse_tags and facet regexes); tied to the code only by this correspondence",
+           "with references; leaves for the parse_tags and facet regexes); tied to the code by this correspondence — and, "
+           "since the tie by regeneration (coq/Props/C20Tie.v), every model function that `agree` runs for parse_tags, "
+           "the three readers, reverse, and every step of hstep (DB(), read, insert with K1, reverse, copy, reverse_copy, "
+           "choose_packages[_copy], the six filters, facet_collection) and every query is PROVED equal to the function "
+           "regenerated from the source (coq/Gen/TrDebtags*.v); still tied by the correspondence only: the two regex "
+           "leaves (parse_line, facet) and split(', ')",
+           "for the tie: harness/py2coq.py's rendering of each construct and the types given in the TR_MODULE* specs of "
+           "this file; sets and dicts BY VALUE while they have one name (typed: only a freshly made set may be stored into "
+           "a dict; a dict stored into an object may not be changed afterwards), set and dict objects that are shared as "
+           "references into the model's heap (coq/Debtags/TrPrims.v, TrHeapPrims.v, TrDerivePrims.v: each primitive defined "
+           "from the model's own functions); `for x in <set>` over the model's canonical order (order independence is proved "
+           "for the loop bodies of the readers, reverse and insert at the level of the value of the dict, see Props/C20Tie.v; "
+           "output() prints in that order); the caller's `tags` argument of insert is a set of its own; DB() followed by "
+           "assignments to both attributes is the blank object (the two empty dicts of __init__ become garbage, which the "
+           "model's heap does not contain); callbacks are pure total functions; a generator is the list it yields",
            "Python set/dict semantics as modelled: sets = sorted duplicate-free lists, dicts = association lists; "
            "iteration order of sets is not modelled (results are compared as sorted lists); the iteration order of "
            "self.db in facet_collection is read from the implementation (iter_packages()) and given to the model",
@@ -861,3 +875,280 @@ def known_match(finding, case, obs):
         shutil.rmtree(d, ignore_errors=True)
     _k1_cache[key] = res
     return res
+
+
+# ---------------------------------------------------------------------------
+# TIE BY REGENERATION (DESIGN §3.1b).  Three modules are regenerated from lib/debian/debtags.py on every run:
+#   coq/Gen/TrDebtags.v        parse_tags, read_tag_database, read_tag_database_reversed, read_tag_database_both_ways,
+#                              reverse, output                                        (primitives: coq/Debtags/TrPrims.v)
+#   coq/Gen/TrDebtagsDB.v      DB.__init__, read, insert (K1 as written), reverse, copy, reverse_copy, the queries and
+#                              iterators                                          (primitives: coq/Debtags/TrHeapPrims.v)
+#   coq/Gen/TrDebtagsDerive.v  DB.choose_packages[_copy], filter_packages[_copy], filter_packages_tags[_copy],
+#                              filter_tags[_copy], facet_collection, tags_of_packages, packages_of_tags
+#                                                                                (primitives: coq/Debtags/TrDerivePrims.v)
+# Proofs coq/Debtags/Tie.v, TieDB.v, TieDerive.v; statements coq/Props/C20Tie.v.
+#
+# Rendering.  A set of str is the model's `sset` (canonical sorted list), a dict {str: set} the model's association list in
+# insertion order.  While a set / a dict has ONE name it is a value; the types make the translator check that:
+#   _VSET  a set that may have other names (a parameter, a loop variable): may be read, copied, iterated
+#   _FSET  a set made where the expression stands (x.copy(), set(..), {.. for ..}): the only thing a dict takes in d[k] = v
+#   _VDICT a dict of such sets; _RDICT a dict {str: reference to a set object shared with the source}
+# Set and dict objects that are shared between collections live in the model's heap: _SREF / _DREF are references, the heap
+# `hp` and the two attributes self.db / self.rdb (references to dict objects) are the state of every method of DB.
+# `for x in <set>` runs over the canonical order (trp_set_iter / trp_sref_iter): see Props/C20Tie.v for what is proved
+# about other orders.  A local dict stored into the new object (`res.db = db`) is published into the heap there; the
+# translator refuses a function that changes it afterwards.
+from harness import extract            # noqa: E402
+from harness import py2coq as _P       # noqa: E402
+import ast as _ast                     # noqa: E402
+
+_LS = ("list", "str")
+_VSET = ("coq", "sset")
+_FSET = ("coq", "fset")
+_VDICT = ("coq", "vdict")
+_PRED = ("coq", "strpred")             # a user callback str -> bool (tag_filter, package_filter): pure and total
+_LRE = ("coq", "lre")
+_LM = ("coq", "lmatch")
+_REC = ("tuple", _VSET, _VSET)
+_PAT = r"^(.+?)(?::?\s*|:\s+(.+?)\s*)$"       # the pattern of parse_tags that the leaf Model.parse_line models
+_FPAT = r"^([^:]+).+"                          # the pattern of facet_collection that the leaf Model.facet models
+
+
+def _lit(src):
+    return ("literal", src, "tt")
+
+
+def _src(value):                       # the source text of a str constant, as ast.unparse prints it
+    return _ast.unparse(_ast.Constant(value=value))
+
+
+def _mut(coq, args, ret, monadic=False):
+    return _P.Call(coq, args, ret, monadic, mutates=True)
+
+
+def _sub(coq, args, ret, sub=("hp",)):
+    c = _P.Call(coq, args, ret)
+    c.substate = list(sub)
+    return c
+
+
+# --- module 1: the module-level functions, by value
+_f_parse = _P.Fun("tr_parse_tags", "parse_tags", [("input_data", _LS)], _REC, generator=True,
+                  locals={"lre": _LRE, "line": "str", "m": ("option", _LM), "pkgs": _VSET, "tags": _VSET})
+_f_parse.narrow = True                 # `if not m: continue` narrows the match object
+_f_parse.join_defines = True           # `tags` is first assigned in both branches of the if
+_LOC = {"db": _VDICT, "dbr": _VDICT, "res": _VDICT, "pkgs": _VSET, "tags": _VSET, "p": "str", "pkg": "str", "tag": "str"}
+
+
+def _loc(*names):
+    return {k: _LOC[k] for k in names}
+
+
+_print = _P.Call("trp_print2", ["str", "str"], "unit")
+_print.stateprim = True                # print(a, b): a primitive on the hidden state "text written to stdout"
+
+TR_MODULE = _P.Module(
+    "TrDebtags", "lib/debian/debtags.py",
+    funs=[
+        _f_parse,
+        _P.Fun("tr_read_tag_database", "read_tag_database", [("input_data", _LS)], _VDICT,
+               locals=_loc("db", "pkgs", "tags", "p")),
+        _P.Fun("tr_read_tag_database_reversed", "read_tag_database_reversed", [("input_data", _LS)], _VDICT,
+               locals=_loc("db", "pkgs", "tags", "tag")),
+        _P.Fun("tr_read_tag_database_both_ways", "read_tag_database_both_ways",
+               [("input_data", _LS), ("tag_filter", ("option", _PRED))], ("tuple", _VDICT, _VDICT),
+               locals=_loc("db", "dbr", "pkgs", "tags", "pkg", "tag")),
+        _P.Fun("tr_reverse", "reverse", [("db", _VDICT)], _VDICT, locals=_loc("res", "pkg", "tags", "tag")),
+        _P.Fun("tr_output", "output", [("db", _VDICT)], "unit", locals=_loc("pkg", "tags"),
+               state=[("<stdout>", "s_out", "str")]),
+    ],
+    calls={
+        "re.compile": _P.Call("trp_lre_compile", [_lit(_src(_PAT))], _LRE),
+        "<lre>.match": _P.Call("trp_lre_match", [_LRE, "str"], ("option", _LM)),
+        "<lmatch>.group": [_P.Call("trp_lm_group1", [_LM, ("literal", "1", "")], "str"),
+                           _P.Call("trp_lm_group2", [_LM, ("literal", "2", "")], ("option", "str"))],
+        "<str>.split": _P.Call("trp_split_cs", ["str", ("literal", _src(", "), "")], _LS),
+        "set": [_P.Call("trp_set_empty", [], _FSET), _P.Call("trp_set_of_list", [_LS], _FSET),
+                _P.Call("trp_set_of_set", [_VSET], _FSET), _P.Call("trp_set_of_str", ["str"], _FSET)],
+        "<sset>.copy": _P.Call("trp_set_copy", [_VSET], _FSET),
+        "<sset>.__iter__": _P.Call("trp_set_iter", [_VSET], _LS),
+        "filter": _P.Call("trp_filter", [_PRED, _VSET], _LS),
+        "parse_tags": _P.Call("tr_parse_tags", [_LS], ("list", _REC), True),
+        "<vdict>.__setitem__": _mut("trp_vd_setitem", [_VDICT, "str", _FSET], "unit"),
+        "<vdict>.__contains__": _P.Call("trp_vd_contains", [_VDICT, "str"], "bool"),
+        "<vdict>.[].__ior__": _mut("trp_vd_ior", [_VDICT, "str", _VSET], "unit", True),
+        "<vdict>.[].add": _mut("trp_vd_item_add", [_VDICT, "str", "str"], "unit", True),
+        "<vdict>.items": _P.Call("trp_vd_items", [_VDICT], ("list", ("tuple", "str", _VSET))),
+        "print": _print,
+        "<str>.join": _P.Call("trp_join_cs", ["str", _VSET], "str"),
+    },
+    consts={"{}": ("trp_vd_empty", _VDICT)},
+    imports=["Debtags.StrSet", "Debtags.Model", "Debtags.TrPrims"])
+TR_MODULE.coercions = [(_FSET, _VSET, "%s")]      # a freshly made set may be used where any set is expected — not the converse
+
+
+@extract.register("TrDebtags")
+def _gen_tr(repo):
+    return _P.translate_module(repo, TR_MODULE)
+
+
+# --- module 2: class DB — the heap of set and dict objects is state
+_HEAP = ("coq", "heap")
+_DREF = ("coq", "dref")
+_SREF = ("coq", "sref")
+_OBJB = ("coq", "objb")                # a DB object whose two attributes are being assigned (trp_db_blank)
+_ST = [("<heap>", "hp", _HEAP), ("self.db", "s_db", _DREF), ("self.rdb", "s_rdb", _DREF)]
+_GH = [("hp", _HEAP), ("s_db", _DREF), ("s_rdb", _DREF)]
+_ITEMS = ("list", ("tuple", "str", _SREF))
+
+
+def _wm(coq, name, params, ret, **kw):          # methods that change the heap / the attributes
+    return _P.Fun(coq, "DB." + name, params, ret, skip_first=True, state=_ST, **kw)
+
+
+def _rm(coq, name, params, ret, **kw):          # methods that only read
+    return _P.Fun(coq, "DB." + name, params, ret, skip_first=True, ghost=_GH, **kw)
+
+
+_SET_VD = {"<objb>.@db=": _sub("trp_ob_set_db_vd", [_OBJB, _VDICT], _OBJB),       # a dict of copies: published
+           "<objb>.@rdb=": _sub("trp_ob_set_rdb_vd", [_OBJB, _VDICT], _OBJB)}
+_f_copy = _wm("tr_db_copy", "copy", [], _OBJB, locals={"res": _OBJB})
+_f_rcopy = _wm("tr_db_reverse_copy", "reverse_copy", [], _OBJB, locals={"res": _OBJB})
+_f_copy.calls = dict(_SET_VD)
+_f_rcopy.calls = dict(_SET_VD)
+_f_rev = _rm("tr_db_reverse", "reverse", [], _OBJB, locals={"res": _OBJB})
+_f_rev.calls = {"<objb>.@db=": _P.Call("trp_ob_set_db_ref", [_OBJB, _DREF], _OBJB),  # the SAME dict object: shared
+                "<objb>.@rdb=": _P.Call("trp_ob_set_rdb_ref", [_OBJB, _DREF], _OBJB)}
+
+_DB_CALLS = {
+    "<dref>.__getitem__": _P.Call("trp_hd_getitem hp", [_DREF, "str"], _SREF, True),
+    "in self.db": _P.Call("trp_hd_contains hp s_db", ["str"], "bool", True),
+    "in self.rdb": _P.Call("trp_hd_contains hp s_rdb", ["str"], "bool", True),
+    "<dref>.keys": _P.Call("trp_hd_keys hp", [_DREF], _LS),
+    "<dref>.items": _P.Call("trp_hd_items hp", [_DREF], _ITEMS),
+    "<sref>.copy": _P.Call("trp_sref_copy hp", [_SREF], _FSET),
+    "<sref>.__iter__": _P.Call("trp_sref_iter hp", [_SREF], _LS),
+    "<vdict>.__setitem__": _mut("trp_vd_setitem", [_VDICT, "str", _FSET], "unit"),
+    "DB": _P.Call("trp_db_blank", [], _OBJB),
+}
+
+TR_MODULE_DB = _P.Module(
+    "TrDebtagsDB", "lib/debian/debtags.py",
+    funs=[
+        _wm("tr_db_init", "__init__", [], "unit"),
+        _wm("tr_db_read", "read", [("input_data", _LS), ("tag_filter", ("option", _PRED))], "unit"),
+        _wm("tr_db_insert", "insert", [("pkg", "str"), ("tags", _VSET)], "unit", locals={"tag": "str"}),
+        _f_rev, _f_copy, _f_rcopy,
+        _rm("tr_db_has_package", "has_package", [("pkg", "str")], "bool"),
+        _rm("tr_db_has_tag", "has_tag", [("tag", "str")], "bool"),
+        _rm("tr_db_tags_of_package", "tags_of_package", [("pkg", "str")], _VSET),
+        _rm("tr_db_packages_of_tag", "packages_of_tag", [("tag", "str")], _VSET),
+        _rm("tr_db_card", "card", [("tag", "str")], "Z"),
+        _rm("tr_db_iter_packages", "iter_packages", [], _LS),
+        _rm("tr_db_iter_tags", "iter_tags", [], _LS),
+        _rm("tr_db_iter_packages_tags", "iter_packages_tags", [], _ITEMS),
+        _rm("tr_db_iter_tags_packages", "iter_tags_packages", [], _ITEMS),
+        _rm("tr_db_package_count", "package_count", [], "Z"),
+        _rm("tr_db_tag_count", "tag_count", [], "Z"),
+    ],
+    calls=dict(_DB_CALLS, **{
+        "<dref>.{}": _sub("trp_hd_new", [], _DREF),
+        "read_tag_database_both_ways": _sub("trp_h_read_both", [_LS, ("option", _PRED)], ("tuple", _DREF, _DREF)),
+        "<sset>.copy": _P.Call("trp_set_copy", [_VSET], _FSET),
+        "<sset>.__iter__": _P.Call("trp_set_iter", [_VSET], _LS),
+        # set((pkg)) — the parentheses are not a tuple: the argument is the str, the result the set of its characters (K1)
+        "set": [_P.Call("trp_set_empty", [], _FSET), _P.Call("trp_set_of_str", ["str"], _FSET)],
+        "<dref>.__setitem__": _sub("trp_hd_setitem_fresh", [_FSET, _DREF, "str"], "unit"),
+        "len": [_P.Call("trp_sref_len hp", [_SREF], "Z"), _P.Call("trp_hd_len hp", [_DREF], "Z")],
+        "<sref>.add": _sub("trp_sref_add", [_SREF, "str"], "unit"),
+        "<vdict>.{for}": _P.Call("trp_vd_of_pairs", [("list", ("tuple", "str", _FSET))], _VDICT),
+    }),
+    consts={"self.db": ("s_db", _DREF), "self.rdb": ("s_rdb", _DREF)},
+    imports=["Debtags.StrSet", "Debtags.Model", "Debtags.TrPrims", "Gen.TrDebtags", "Debtags.TrHeapPrims"])
+TR_MODULE_DB.heap = _P.Heap("hp", _HEAP, {})      # (no class with attribute slots: set and dict objects through primitives)
+TR_MODULE_DB.coercions = [(_FSET, _VSET, "%s"), (_SREF, _VSET, "(trp_sref_value hp %s)")]
+TR_MODULE_DB.ref_types = ("dref", "sref")
+
+
+@extract.register("TrDebtagsDB")
+def _gen_tr_db(repo):
+    return _P.translate_module(repo, TR_MODULE_DB)
+
+
+# --- module 3: the derivations
+_RDICT = ("coq", "rdict")
+_OBJ = ("coq", "obj")
+_PTPRED = ("coq", "ptpred")            # the callback of filter_packages_tags: (package, its set of tags) -> bool
+_FRE = ("coq", "fre")
+_SHARE_DB = {   # db = {} of SHARED sets; res.db = db (published); res.rdb = reverse(db) (published)
+    "<objb>.@db=": _sub("trp_ob_set_db_rd", [_OBJB, _RDICT], _OBJB),
+    "<objb>.@rdb=": _sub("trp_ob_set_rdb_vd", [_OBJB, _VDICT], _OBJB),
+    "reverse": _P.Call("trp_h_reverse_rd hp", [_RDICT], _VDICT, True)}
+_COPY_DB = dict(_SET_VD, reverse=_P.Call("tr_reverse", [_VDICT], _VDICT, True))      # db = {} of copies
+_SHARE_RDB = {  # rdb = {}; res.rdb = rdb; res.db = reverse(rdb)
+    "<objb>.@rdb=": _sub("trp_ob_set_rdb_rd", [_OBJB, _RDICT], _OBJB),
+    "<objb>.@db=": _sub("trp_ob_set_db_vd", [_OBJB, _VDICT], _OBJB),
+    "reverse": _P.Call("trp_h_reverse_rd hp", [_RDICT], _VDICT, True)}
+
+
+def _dm(coq, name, param, dictvar, dty, calls, extra=None):
+    loc = {"res": _OBJB, dictvar: dty, "pkg": "str", "tag": "str"}
+    loc.update(extra or {})
+    f = _wm(coq, name, [param], _OBJB, locals=loc)
+    f.calls = dict(calls)
+    return f
+
+
+_UNION = _P.Call("trp_set_union_star", [("list", _VSET)], _FSET, True)
+_UNION.star = True                     # set.union(*<generator>)
+_f_facet = _wm("tr_db_facet_collection", "facet_collection", [], _OBJ,
+               locals={"fcoll": _OBJ, "tofacet": _FRE, "pkg": "str", "tags": _SREF, "ftags": _VSET})
+_f_facet.calls = {"DB": _sub("trp_db_new", [], _OBJ)}    # here the new object's own dicts are used: the regenerated __init__
+
+TR_MODULE_DERIVE = _P.Module(
+    "TrDebtagsDerive", "lib/debian/debtags.py",
+    funs=[
+        _dm("tr_db_choose_packages", "choose_packages", ("package_iter", _LS), "db", _RDICT, _SHARE_DB),
+        _dm("tr_db_choose_packages_copy", "choose_packages_copy", ("package_iter", _LS), "db", _VDICT, _COPY_DB),
+        _dm("tr_db_filter_packages", "filter_packages", ("package_filter", _PRED), "db", _RDICT, _SHARE_DB),
+        _dm("tr_db_filter_packages_copy", "filter_packages_copy", ("filter_data", _PRED), "db", _VDICT, _COPY_DB),
+        _dm("tr_db_filter_packages_tags", "filter_packages_tags", ("package_tag_filter", _PTPRED), "db", _RDICT,
+            _SHARE_DB, {"_": _SREF}),
+        _dm("tr_db_filter_packages_tags_copy", "filter_packages_tags_copy", ("package_tag_filter", _PTPRED), "db", _VDICT,
+            _COPY_DB, {"_": _SREF}),
+        _dm("tr_db_filter_tags", "filter_tags", ("tag_filter", _PRED), "rdb", _RDICT, _SHARE_RDB),
+        _dm("tr_db_filter_tags_copy", "filter_tags_copy", ("tag_filter", _PRED), "rdb", _VDICT, _COPY_DB),
+        _f_facet,
+        _rm("tr_db_tags_of_packages", "tags_of_packages", [("pkgs", _LS)], _VSET, locals={"p": "str"}),
+        _rm("tr_db_packages_of_tags", "packages_of_tags", [("tags", _LS)], _VSET, locals={"t": "str"}),
+    ],
+    calls=dict(_DB_CALLS, **{
+        "<rdict>.{}": _P.Call("trp_rd_empty", [], _RDICT),
+        "<vdict>.{}": _P.Call("trp_vd_empty", [], _VDICT),
+        "<rdict>.__setitem__": _mut("trp_rd_setitem", [_RDICT, "str", _SREF], "unit"),
+        "filter": [_P.Call("trp_filter_l", [_PRED, _LS], _LS), _P.Call("trp_filter_items hp", [_PTPRED, _ITEMS], _ITEMS)],
+        "re.compile": _P.Call("trp_fre_compile", [_lit(_src(_FPAT))], _FRE),
+        "<fre>.sub": _P.Call("trp_fre_sub", [_FRE, _lit(_src("\\1")), "str"], "str"),
+        "set": _P.Call("trp_set_of_list", [_LS], _FSET),
+        "self.iter_packages_tags": _P.Call("tr_db_iter_packages_tags hp s_db s_rdb", [], _ITEMS, True),
+        "<obj>.insert": _sub("trp_obj_insert", [_OBJ, "str", _VSET], "unit"),
+        "set.union": _UNION,
+        "self.tags_of_package": _P.Call("tr_db_tags_of_package hp s_db s_rdb", ["str"], _VSET, True),
+        "self.packages_of_tag": _P.Call("tr_db_packages_of_tag hp s_db s_rdb", ["str"], _VSET, True),
+    }),
+    consts={"self.db": ("s_db", _DREF), "self.rdb": ("s_rdb", _DREF)},
+    imports=["Debtags.StrSet", "Debtags.Model", "Debtags.TrPrims", "Gen.TrDebtags", "Debtags.TrHeapPrims",
+             "Gen.TrDebtagsDB", "Debtags.TrDerivePrims"])
+TR_MODULE_DERIVE.heap = _P.Heap("hp", _HEAP, {})
+TR_MODULE_DERIVE.coercions = [(_FSET, _VSET, "%s")]
+TR_MODULE_DERIVE.ref_types = ("dref", "sref", "obj")
+
+
+@extract.register("TrDebtagsDerive")
+def _gen_tr_derive(repo):
+    return _P.translate_module(repo, TR_MODULE_DERIVE)
+
+
+# (registered only while the theorem file is there, so that ./check C20 never breaks on a tree without it)
+TIE_FILE = "Props/C20Tie.v" if os.path.exists(os.path.join(
+    os.path.dirname(os.path.abspath(__file__)), "..", "..", "coq", "Props", "C20Tie.v")) else None
